@@ -300,7 +300,7 @@ class C14(runner.Check):
         technique="Lean 4 proof (mutual structural induction over the state tree, dict-regrouping lemma, dirty-flag "
                   "invariant) + differential correspondence + Python property oracle + behavioural differential")
 
-    streams = (('mixed', (16, 250), (64, 800)), ('clean', (16, 120), (32, 600)))
+    streams = (('mixed', (16, 450), (64, 800)), ('clean', (16, 200), (32, 600)))
 
     def explore(self, tier, seed):
         payloads = []
